@@ -42,7 +42,7 @@ CntSeq(k)  == <<Zero, One, FromNat(k.w - 1), FromNat(k.w), FromNat(65)>>     \* 
 Feed(k)    == <<MinOf(k), One, MaxOf(k)>>
 BoolSeq    == << <<0>>, <<1>> >>
 StrSeq     == << <<>>, <<1>>, <<2>>, <<1, 3>> >>
-FSeq       == <<NaN, Inf(0), Zr(1), Zr(0), Fin(0,1,0), Fin(1,1,0), Fin(0,3,-1)>>
+FSeq       == <<NaN, Inf(0), Zr(1), Zr(0), Fin(0,1,0), Fin(1,1,0), Fin(0,3,-1), Th32>>    \* Th32: 1/3 as float32 holds it (sums, products and quotients with it need rounding in both formats)
 FFeed      == <<NaN, Zr(0), Fin(0,1,0)>>
 FConvSeq   == <<NaN, Inf(0), Zr(1), Zr(0), Fin(0,1,0), Fin(1,1,0), Fin(0,3,-1), Fin(0,1,24), Fin(1,255,0)>>
 CSeq       == <<Cx(Zr(0), Zr(0)), Cx(Fin(0,1,0), Zr(0)), Cx(Zr(0), Fin(1,1,0)), Cx(Fin(1,3,-1), Fin(0,1,-1))>>
